@@ -50,12 +50,41 @@ func run(raw json.RawMessage) driver.Result {
 	switch in.K {
 	case "rt":
 		enc := encoders[in.Scheme](cc.DecodedIdentifier(in.Words))
-		dec := decode(in.Scheme, enc)
+		snapshot := string(append([]byte(nil), enc...)) // a copy that shares no memory with enc
+		// results are values: what later calls of the encoders and decoders do must not change an encoded
+		// name (or a decoded word list) handed out earlier - names are kept in tables and used much later
+		other := make([]string, 0, len(in.Words)+1)
+		for i := len(in.Words) - 1; i >= 0; i-- {
+			other = append(other, strings.ToUpper(in.Words[i])+"q")
+		}
+		other = append(other, "zz9")
+		firstWords, firstErr := decoders[in.Scheme](enc)
+		var firstCopy []string
+		for _, w := range firstWords {
+			firstCopy = append(firstCopy, string(append([]byte(nil), w...)))
+		}
+		for _, e := range encoders {
+			_ = e(cc.DecodedIdentifier(other))
+		}
+		_, _ = decoders[in.Scheme](encoders[in.Scheme](cc.DecodedIdentifier(other)))
+		var direct []string
+		if enc != snapshot {
+			direct = append(direct, fmt.Sprintf("an encoded name changed after later encoder calls: %q became %q", snapshot, enc))
+		}
+		if firstErr == nil {
+			for i := range firstWords {
+				if firstWords[i] != firstCopy[i] {
+					direct = append(direct, fmt.Sprintf("a decoded word changed after later calls: %q became %q", firstCopy[i], firstWords[i]))
+				}
+			}
+		}
+		dec := decode(in.Scheme, snapshot)
 		return driver.Result{
-			Coq:        fmt.Sprintf("RoundTrip %d %s %s %s", in.Scheme, coqfmt.Strs(in.Words), coqfmt.Str(enc), dec),
+			Coq:        fmt.Sprintf("RoundTrip %d %s %s %s", in.Scheme, coqfmt.Strs(in.Words), coqfmt.Str(snapshot), dec),
 			Kind:       fmt.Sprintf("roundtrip-scheme%d", in.Scheme),
 			Nontrivial: len(in.Words) >= 2,
 			Tags:       []string{fmt.Sprintf("rt-words-%d", len(in.Words))},
+			Direct:     direct,
 		}
 	case "go":
 		var sb strings.Builder
